@@ -278,7 +278,9 @@ func (c *Ctx) finish(verifDir string, t0 time.Time, seed int) int {
 	}
 	b, _ := json.MarshalIndent(ev, "", " ")
 	os.MkdirAll(filepath.Join(verifDir, "evidence"), 0o755)
-	os.WriteFile(filepath.Join(verifDir, "evidence", c.Prop+".json"), b, 0o644)
+	if len(c.Prop) == 3 && c.Prop[0] == 'C' {
+		os.WriteFile(filepath.Join(verifDir, "evidence", c.Prop+".json"), b, 0o644)
+	}
 	fmt.Printf("SUMMARY property=%s tier=%s obligations=%d ok=%d known=%d violations=%d undecided=%d fixtures_fired=%d broken=%d wall=%.1fs\n",
 		c.Prop, c.Tier, total, nOK, nKnown, nViol, nUnd, nFix, len(broken), time.Since(t0).Seconds())
 	if fail {
